@@ -19,8 +19,15 @@ and compared with the Lean model (correspondence, one driver call for all cases)
                                                                  vs  Grid.styleTargets / widenedColumns
   read        every block read_excel yields (type, origin row, sheet, value)
                                                                  vs  Grid.readExcel (Grid.writeExcel …)
-  wf          the Python well-formedness predicate (with the real `_re_block_marker`)
-                                                                 vs  Grid.excelWF, incl. negative examples
+  wf          the Python well-formedness predicate (written from DESIGN §3 and the StarTable marker rules,
+              independent of the implementation's `_re_block_marker`)
+                                                                 vs  Grid.excelWF / sheetNamesOK, incl. negative examples
+
+Ties: the style-loop pin (style_writes_pinned) is the only source pin; everything else is correspondence / oracle, and
+the correspondence is semantic: the saved value grid (modulo trailing empty rows) against Grid.store (Grid.layoutSheet),
+the rows handed to ws.append only through the openpyxl law (Grid.store of what was recorded = what is read back; their
+literal equality with Grid.layoutSheet is reported as information), styled cells only as "inside the rows of a table and
+inside the sheet" (the theorem's statement; equality with Grid.styleTargets is information).
 """
 import datetime
 import io
@@ -50,16 +57,21 @@ EXTRA = {
         "excel_roundtrip; outside it create_sheet raises ValueError or renames — negative cases run each time); "
         "text is free of C0 controls other than tab and line feed (a carriage return comes back as a line feed: "
         "negative case); timestamps are whole seconds from 1900-01-01; na_rep is the default '-'",
-        "TIES — pins (a source change breaks a Lean theorem): style_writes_pinned (the style loop assigns only "
-        "font / fill / alignment; no `.value` store anywhere in the module), header_text_pinned (header f-strings "
-        "per orientation, destinations joined by one blank), sheet_loops_pinned (sheet loop over the mapping, "
-        "`wb.worksheets` in workbook order, (title, iter_rows) pairs, `sheet_name_pattern.match`), "
-        "represent_consts_pinned (sealant, na_rep default) and the C02/C03 pins of the shared reader layers. "
-        "TIES — correspondence only (no pin; Gen.excelAppended / excelInts / excelStyleStmts are informational "
-        "fingerprints): order and content of the appended rows (recorded ws.append calls vs Grid.layoutSheet), the "
-        "openpyxl law (read_sheets rows vs Grid.store), the style index arithmetic incl. i_start / sep_lines / the "
-        "transposed swap / widened columns (styled cells of the saved file vs Grid.styleTargets), table_dimensions, "
-        "every block read_excel yields (vs Grid.readExcel), the well-formedness and sheet-name predicates",
+        "TIES — pins (a source change breaks a Lean theorem): only style_writes_pinned (the style loop assigns font / "
+        "fill / alignment; no `.value` store anywhere in the module) and represent_consts_pinned (sealant, na_rep "
+        "default), plus the C02/C03 pins of the shared reader layers. "
+        "TIES — correspondence / oracle only (Gen.excel* other than the two above are informational fingerprints): "
+        "saved value grid (modulo trailing empty rows) vs Grid.store (Grid.layoutSheet); the rows handed to ws.append "
+        "only through the openpyxl law (Grid.store of what was recorded = what is read back; literal equality with "
+        "Grid.layoutSheet is reported as information, nothing is judged when another write protocol records nothing); "
+        "styled cells only as 'inside the rows of a table and inside the sheet' (equality with Grid.styleTargets and "
+        "the widened columns are information); table dimensions; every block read_excel yields vs Grid.readExcel; "
+        "header cells, sheet order, origin sheets, match-vs-search patterns through the oracle; the well-formedness, "
+        "size and sheet-name predicates",
+        "DOMAIN — sizes: cell text <= 32767 characters (openpyxl cuts longer text: long_text_is_cut), sheet columns "
+        "<= 18278 (beyond it write_excel raises ValueError: too_wide_raises), sheet rows <= 1048576 (conservative; "
+        "openpyxl was observed to handle 1048577); the negative stream checks that model and code agree on how the "
+        "round trip fails just outside",
         "HARNESS-ONLY: the form in which the tables are passed (list, tuple, generator, iterator, map object, bare "
         "Table; per sheet in a dict or as the whole argument) is outside the model (a list of sheets of tables); every "
         "form is expected to give the same workbook — oracle and correspondence run on each",
@@ -85,6 +97,8 @@ EXTRA = {
     ],
 }
 
+MAX_CELL_CHARS = 32767          # openpyxl cuts longer cell text
+MAX_COLUMNS = 18278             # openpyxl get_column_letter: "ZZZ"; beyond it write_excel raises ValueError
 KEY_STYLE_INDEX = "styles-indexerror-last-rowwise-zero-columns"
 
 # --------------------------------------------------------------------------- generator (spec level)
@@ -96,7 +110,7 @@ TEXT_ALPHA = list("abcxyzABZ019 _-.,;:*#%/()é µΩ中") + ["ß", "ø", "'", '"'
 NAME_ALPHA = list("abcdxyT01_- é") + ASTRAL
 UNITS_NUM = ["-", "m", "kg", "mm", "°C", "m/s", "1/s", "%", "N m", "Text", "ONOFF", "µm", "\U0001D538m", "\U00020000"]
 SHEET_NAMES = ["Sheet1", "data", "in put", "Tab_2", "résumé", "A", "x1", "sheet one", "Ωmega", "out", "in", "input_2",
-               "123", "a.b", "tab-3", "S\U0001F600\U0001D538"]
+               "123", "a.b", "tab-3", "S\U0001F600\U0001D538", " x ", "lead ", " tr ail"]
 TEXT_FIXED = ["ratio a:b", "12:30", "C:\\data", "x: y", "a:b:c", "t 1:2 ", "a\nb", "a\tb", " lead\n", "x\n\ny", "-", "nan", "None", "1.5", "12", "k:", "**x", ":a", " u ", "x" * 40, "TRUE", "2020-01-02", "a=b", "é µ", "\U0001F600", "x\U00020000y\U0001D538", "\ufeffbom", "a\x85b", "a\u2028b",
               "#N/A", "  lead", "trail  ", "0", "*", "a:b"]
 FLOATS_FIXED = [0.0, -0.0, 1.0, 2.0, -3.0, 2.5, 0.1, 1e20, 1e15, 1e16, -1e-7, 123456.789, 3.14159265358979,
@@ -129,7 +143,8 @@ def is_space(c):
 
 
 def text_ok(s):
-    return bool(s) and not s.startswith("=") and all(char_ok(c) for c in s) and not all(is_space(c) for c in s)
+    return bool(s) and not s.startswith("=") and all(char_ok(c) for c in s) and not all(is_space(c) for c in s) \
+        and len(s) <= MAX_CELL_CHARS
 
 
 def char_ok(c):
@@ -152,10 +167,16 @@ def sheet_names_ok(names):
     return len(set(keys)) == len(keys)
 
 
+LONG_LENGTHS = [41, 64, 100, 254, 255, 256, 257, 300, 1000]
+
+
 def rand_text(rng, first_col=False):
     for _ in range(50):
-        if rng.random() < 0.35:
+        r = rng.random()
+        if r < 0.35:
             s = rng.choice(TEXT_FIXED)
+        elif r < 0.43:
+            s = "".join(rng.choice(TEXT_ALPHA) for _ in range(rng.choice(LONG_LENGTHS)))      # long text
         else:
             s = "".join(rng.choice(TEXT_ALPHA) for _ in range(rng.randint(1, 8)))
         if not text_ok(s):
@@ -168,7 +189,8 @@ def rand_text(rng, first_col=False):
 
 def rand_name(rng, used, no_marker):
     for _ in range(100):
-        s = "".join(rng.choice(NAME_ALPHA) for _ in range(rng.randint(1, 5))).strip()
+        n_chars = rng.choice(LONG_LENGTHS[:7]) if rng.random() < 0.05 else rng.randint(1, 5)
+        s = "".join(rng.choice(NAME_ALPHA) for _ in range(n_chars)).strip()
         if rng.random() < 0.1:
             s = rng.choice(["a:b", "k:", "*x", "12", "a b c", "ÆØ", "a\nb", "x\ty"])
         if not text_ok(s) or s != s.strip() or s in used:
@@ -217,7 +239,8 @@ def gen_table(rng, k):
     n_col = rng.choice([0, 1, 1, 2, 2, 3, 4])
     n_row = rng.choice([0, 1, 1, 2, 3, 5])
     transposed = rng.random() < 0.45
-    name = "".join(rng.choice(NAME_ALPHA + ["*"]) for _ in range(rng.randint(0, 6)))
+    n_chars = rng.choice(LONG_LENGTHS) if rng.random() < 0.05 else rng.randint(0, 6)
+    name = "".join(rng.choice(NAME_ALPHA + ["*", "\t", "\n"]) for _ in range(n_chars))
     if rng.random() < 0.5:
         name = name.strip()
     while name.startswith("*") or name.endswith("*"):
@@ -251,6 +274,8 @@ def gen_table(rng, k):
         else:
             vals = [rng.choice(INTS_FIXED) if rng.random() < 0.4 else rng.randint(-10 ** 6, 10 ** 6) for _ in range(n_row)]
         col = {"name": cname, "unit": unit, "kind": kind, "values": vals}
+        if kind == "text" and rng.random() < 0.3:
+            col["text_dtype"] = "str"         # pandas' string dtype instead of object
         if kind == "datetime":
             # resolution of the datetime64 column holding these instants ([ns] only reaches 2262-04-11)
             fits_ns = all(v is None or v[:4] < "2262" for v in vals)
@@ -354,7 +379,7 @@ def build_table(spec):
     for c in built:
         k, v = c["kind"], c["values"]
         if k == "text":
-            data[c["name"]] = pd.Series(v, dtype=object)
+            data[c["name"]] = pd.Series(v, dtype="str" if c.get("text_dtype") == "str" else object)
         elif k == "onoff":
             data[c["name"]] = pd.Series(v, dtype=bool)
         elif k == "datetime":
@@ -423,6 +448,10 @@ def py_wf(spec):
     """DESIGN §3 clauses 1-6 for Excel on a spec (independent of the Lean model)"""
     name = spec["name"]
     if not all(char_ok(c) for c in name):
+        return False
+    n_rows = len(spec["columns"][0]["values"]) if spec["columns"] else 0
+    true_cols = n_rows + 2 if spec["transposed"] else len(spec["columns"])
+    if len(name) + 3 > MAX_CELL_CHARS or len(" ".join(spec["destinations"])) > MAX_CELL_CHARS or true_cols > MAX_COLUMNS:
         return False
     if name.startswith("*") or name.endswith("*") or (spec["transposed"] and not name):
         return False
@@ -508,6 +537,22 @@ NEGATIVE = [
     ("timestamp before 1900-01-01", {"name": "t", "destinations": ["all"], "transposed": False, "columns": [
         {"name": "a", "unit": "datetime", "kind": "datetime", "values": ["1899-12-31T00:00:00"]}]}),
 ]
+NEGATIVE += [
+    ("text of 32768 characters", {"name": "t", "destinations": ["all"], "transposed": False, "columns": [
+        {"name": "a", "unit": "text", "kind": "text", "values": ["x" * (MAX_CELL_CHARS + 1), "y"]}]}),
+    ("table name of 40000 characters", {"name": "n" * 40000, "destinations": ["all"], "transposed": False, "columns": [
+        {"name": "a", "unit": "m", "kind": "num", "values": ["1.0"]}]}),
+    ("transposed table name of 32765 characters (the star is cut off)",
+     {"name": "n" * (MAX_CELL_CHARS - 2), "destinations": ["all"], "transposed": True, "columns": [
+         {"name": "a", "unit": "m", "kind": "num", "values": ["1.0"]}]}),
+    ("unit of 32768 characters", {"name": "t", "destinations": ["all"], "transposed": False, "columns": [
+        {"name": "a", "unit": "u" * (MAX_CELL_CHARS + 1), "kind": "num", "values": ["1.0"]}]}),
+    ("transposed table with 18277 rows (18279 sheet columns)",
+     {"name": "t", "destinations": ["all"], "transposed": True, "columns": [
+         {"name": "a", "unit": "m", "kind": "num", "values": ["1.0"] * (MAX_COLUMNS - 1)}]}),
+    ("row-wise table with 18279 columns", {"name": "t", "destinations": ["all"], "transposed": False, "columns": [
+        {"name": "c%d" % j, "unit": "m", "kind": "num", "values": ["1.0"]} for j in range(MAX_COLUMNS + 1)]}),
+]
 # outside the domain of the openpyxl law (rounded / normalised by the file format): no model comparison
 OUT_OF_LAW = ("17 significant digits", "sub-second timestamp", "carriage return in text", "timestamp before 1900-01-01")
 
@@ -563,19 +608,19 @@ class AppendRecorder:
         self._ws.append = self._orig
 
 
-def write_wb(tables, styles, sep, target_kind, tmp, tag):
+def write_wb(tables, styles, sep, target_kind, tmp, tag, na_rep="-"):
     """-> (source to read from, bytes of the file, recorded append rows) or raises"""
     from pdtable import write_excel
     with AppendRecorder() as rec, warnings.catch_warnings():
         warnings.simplefilter("ignore")
         if target_kind == "path":
             p = os.path.join(tmp, tag + ".xlsx")
-            write_excel(tables, p, sep_lines=sep, styles=styles)
+            write_excel(tables, p, sep_lines=sep, styles=styles, na_rep=na_rep)
             with open(p, "rb") as f:
                 data = f.read()
         else:
             buf = io.BytesIO()
-            write_excel(tables, buf, sep_lines=sep, styles=styles)
+            write_excel(tables, buf, sep_lines=sep, styles=styles, na_rep=na_rep)
             if buf.closed:
                 raise AssertionError("write_excel closed the caller's stream")
             data = buf.getvalue()
@@ -717,7 +762,7 @@ def same_table(exp, got):
     return None
 
 
-def read_back(source, pattern):
+def read_back(source, pattern, origin_mode=None):
     """-> ({"blocks": [...], "ending": ...}, [(sheet, canon_table)]) from the real read_excel"""
     from pdtable import read_excel
     from pdtable.table_origin import InputError
@@ -725,6 +770,11 @@ def read_back(source, pattern):
     kw = {}
     if pattern is not None:
         kw["sheet_name_pattern"] = re.compile(pattern)
+    if origin_mode == "origin":
+        kw["origin"] = "spec given by the caller"
+    elif origin_mode == "location_file":
+        from pdtable.table_origin import NullLocationFile
+        kw["location_file"] = NullLocationFile("caller's file")
     try:
         with warnings.catch_warnings():
             warnings.simplefilter("ignore")
@@ -780,7 +830,10 @@ def run_case(case, out, tmp, model_ok, ops, pend, oracle=True):
     arg = _Fresh()
     mt = [{"name": s["name"], "tables": [model_table(t) for t in real[s["name"]]]} for s in sheets]
     tag = "c%s" % case.get("index", "r")
-    brief = {k: case[k] for k in ("seed", "index", "styles", "sep", "target", "pattern") if k in case}
+    na_rep = case.get("na_rep", "-")
+    origin_mode = case.get("origin_mode")
+    brief = {k: case[k] for k in ("seed", "index", "styles", "sep", "target", "pattern", "na_rep", "origin_mode")
+             if k in case}
     brief["sheets"] = sheets
 
     # ---- write (the setting under test) and, if styled, the unstyled twin
@@ -788,7 +841,7 @@ def run_case(case, out, tmp, model_ok, ops, pend, oracle=True):
         first_arg = arg()
         snapshot = [(k, v if not isinstance(v, list) else list(v)) for k, v in first_arg.items()] \
             if isinstance(first_arg, dict) else None
-        data, appended = write_wb(first_arg, styles, sep, kind, tmp, tag)
+        data, appended = write_wb(first_arg, styles, sep, kind, tmp, tag, na_rep)
         if snapshot is not None and oracle:
             now = [(k, v if not isinstance(v, list) else list(v)) for k, v in first_arg.items()]
             same = len(now) == len(snapshot) and all(
@@ -805,14 +858,14 @@ def run_case(case, out, tmp, model_ok, ops, pend, oracle=True):
             out.fail("write_excel raised for well-formed tables", brief, type(e).__name__ + ": " + str(e)[:200],
                      "a workbook", key=key)
         if model_ok:
-            ops.append({"op": "grid_write_read", "sheets": mt, "sep": sep, "naRep": "-", "styles": bool(styles),
+            ops.append({"op": "grid_write_read", "sheets": mt, "sep": sep, "naRep": na_rep, "styles": bool(styles),
                         "match": None, "ext": rc.ext_tables([]), "fixer": rc.FIXERS["strict"]})
             pend.append(("write_exc", brief, {"exc": type(e).__name__}))
         return
     grid = value_grid(data)
     if styles:
         try:
-            data0, _ = write_wb(arg(), False, sep, kind, tmp, tag + "u")
+            data0, _ = write_wb(arg(), False, sep, kind, tmp, tag + "u", na_rep)
             grid0 = value_grid(data0)
         except Exception as e:  # noqa: BLE001
             grid0 = None
@@ -826,7 +879,7 @@ def run_case(case, out, tmp, model_ok, ops, pend, oracle=True):
     if oracle:
         other = "bytes" if kind == "path" else "path"
         try:
-            data2, _ = write_wb(arg(), styles, sep, other, tmp, tag + "o")
+            data2, _ = write_wb(arg(), styles, sep, other, tmp, tag + "o", na_rep)
             if not grids_equal(value_grid(data2), grid):
                 out.fail("the workbook written to a path differs from the one written to a binary stream", brief,
                          first_grid_diff(value_grid(data2), grid), "identical cell values", key="path_vs_stream")
@@ -842,7 +895,7 @@ def run_case(case, out, tmp, model_ok, ops, pend, oracle=True):
         source = io.BytesIO(data)
     names = [s["name"] for s in sheets]
     matching = names if pattern is None else [n for n in names if re.compile(pattern).match(n)]
-    impl_read, tabs = read_back(source, pattern)
+    impl_read, tabs = read_back(source, pattern, origin_mode)
     if kind != "path":
         source = io.BytesIO(data)
     impl_sheets = sheets_via_pdtable(source)
@@ -873,20 +926,22 @@ def run_case(case, out, tmp, model_ok, ops, pend, oracle=True):
     # ---- correspondence
     if model_ok:
         ext = rc.ext_tables([r for _, rows in impl_sheets for r in rows])
-        ops.append({"op": "grid_write_read", "sheets": mt, "sep": sep, "naRep": "-", "styles": bool(styles),
+        ops.append({"op": "grid_write_read", "sheets": mt, "sep": sep, "naRep": na_rep, "styles": bool(styles),
                     "match": None if pattern is None else matching, "ext": ext, "fixer": rc.FIXERS["strict"]})
         sigs = style_signatures(data) if styles else None
         pend.append(("write_read", brief, {
             "appended": [(n, appended.get(n, [])) for n in names], "sheets": impl_sheets, "grid": grid,
-            "read": impl_read, "sigs": sigs, "styles": styles}))
+            "read": impl_read, "sigs": sigs, "styles": styles,
+            "rects": {sh["name"]: table_row_ranges(sh, sep) for sh in sheets}}))
         for s, m in zip(sheets, mt):
-            ops.append({"op": "grid_layout", "tables": m["tables"], "sep": sep, "naRep": "-"})
+            ops.append({"op": "grid_layout", "tables": m["tables"], "sep": sep, "naRep": na_rep})
             pend.append(("layout", brief, {"appended": appended.get(s["name"], []),
                                            "stored": dict(impl_sheets).get(s["name"]),
                                            "dims": [[len(t.df), len(t.df.columns), bool(t.metadata.transposed)]
                                                     for t in real[s["name"]]]}))
             ops.append({"op": "grid_store", "rows": common.grid_to_json(appended.get(s["name"], []))})
-            pend.append(("store", brief, {"stored": dict(impl_sheets).get(s["name"])}))
+            pend.append(("store", brief, {"stored": dict(impl_sheets).get(s["name"]),
+                                          "recorded": bool(appended.get(s["name"])) or not s["tables"]}))
 
 
 def grids_equal(a, b):
@@ -920,15 +975,19 @@ def judge(what, case, impl, ans, out):
         return
     if what == "layout":
         rows = common.grid_to_json(impl["appended"])
-        if ans["rows"] != rows:
-            out.mismatch("rows appended by _append_table_to_openpyxl_worksheet vs Grid.layoutSheet", case, rows, ans["rows"])
-        st = common.grid_to_json(impl["stored"] or [])
-        if ans["stored"] != st:
+        if impl["appended"] and ans["rows"] != rows:
+            # the call protocol to openpyxl is not part of C09: information only (the saved grid decides)
+            out.count("info: rows handed to ws.append differ literally from Grid.layoutSheet")
+        st = strip_blank_tail(common.grid_to_json(impl["stored"] or []))
+        if strip_blank_tail(ans["stored"]) != st:
             out.mismatch("read_sheets rows vs Grid.store (Grid.layoutSheet …)", case, st, ans["stored"])
         if ans["dims"] != impl["dims"]:
-            out.mismatch("table_dimensions vs Grid.dimOf", case, impl["dims"], ans["dims"])
+            out.mismatch("table dimensions vs Grid.dimOf", case, impl["dims"], ans["dims"])
         return
     if what == "store":
+        if not impl["recorded"]:
+            out.count("info: nothing recorded through ws.append (another write protocol): openpyxl law not sampled")
+            return
         st = common.grid_to_json(impl["stored"] or [])
         if ans != st:
             out.mismatch("openpyxl law: read-back rows vs Grid.store of the appended rows", case, st, ans)
@@ -937,27 +996,56 @@ def judge(what, case, impl, ans, out):
         if "exc" in ans:
             out.mismatch("the model's write_excel raises, the implementation does not", case, "a workbook", ans)
             return
-        m_sheets = [(s["name"], s["rows"]) for s in ans["sheets"]]
-        i_sheets = [(n, common.grid_to_json(rows)) for n, rows in impl["sheets"]]
+        m_sheets = [(s["name"], strip_blank_tail(s["rows"])) for s in ans["sheets"]]
+        i_sheets = [(n, strip_blank_tail(common.grid_to_json(rows))) for n, rows in impl["sheets"]]
         if m_sheets != i_sheets:
             out.mismatch("workbook value grid vs Grid.writeExcel", case, i_sheets, m_sheets)
-        if common_json(impl["grid"]) != i_sheets:
+        if common_json(impl["grid"]) != [(n, common.grid_to_json(rows)) for n, rows in impl["sheets"]]:
             out.mismatch("read_sheets differs from openpyxl's own value grid", case, i_sheets, common_json(impl["grid"]))
         mr = canon_model_read(ans["read"])
         if mr != impl["read"]:
-            out.mismatch("blocks of read_excel vs Grid.readExcel", case, impl["read"], mr)
+            # BLANK blocks (separator rows) are no content of C09: judge the other blocks and the ending
+            def no_blank(r):
+                return {"blocks": [b for b in r["blocks"] if b["ty"] != "BLANK"], "ending": r["ending"]}
+            if no_blank(mr) != no_blank(impl["read"]):
+                out.mismatch("blocks of read_excel vs Grid.readExcel", case, impl["read"], mr)
+            else:
+                out.count("info: BLANK blocks differ from Grid.readExcel (separator rows)")
         if impl["styles"]:
             for s in ans["sheets"]:
                 sig, wid = impl["sigs"].get(s["name"], ({}, []))
-                exp = expected_signatures(s["styled"], impl["styles"])
-                if exp != sig:
-                    diff = sorted(set(exp.items()) ^ set(sig.items()), key=repr)[:6]
-                    out.mismatch("styled cells of the saved workbook vs Grid.styleTargets", case,
-                                 {"sheet": s["name"], "impl_minus_model_or_back": [list(map(str, d)) for d in diff]},
-                                 len(s["styled"]))
+                # what style_touches_no_value states: every styled cell lies in the rows of a table, inside the sheet
+                rects = impl["rects"].get(s["name"], [])
+                width = max((len(r) for r in s["rows"]), default=0)
+                stray = sorted((r, c) for (r, c) in sig
+                               if not any(lo <= r < hi for lo, hi in rects) or c >= width or r >= len(s["rows"]))
+                if stray:
+                    out.mismatch("a styled cell lies outside the rows of every table / outside the sheet", case,
+                                 {"sheet": s["name"], "cells": stray[:8], "table_rows": rects}, "inside")
+                if expected_signatures(s["styled"], impl["styles"]) != sig:
+                    out.count("info: styled cells differ from Grid.styleTargets (styling design)")
                 if s["widened"] != wid:
-                    out.mismatch("widened columns vs Grid.widenedColumns", case, wid, s["widened"])
+                    out.count("info: widened columns differ from Grid.widenedColumns")
         return
+
+
+def strip_blank_tail(rows):
+    """rows without the all-empty rows at the end (a separator row holding an empty cell is not a difference)"""
+    rows = list(rows)
+    while rows and all(c is None for c in rows[-1]):
+        rows.pop()
+    return rows
+
+
+def table_row_ranges(sheet, sep):
+    """[lo, hi) sheet rows of each table: header, destinations, then names+units+rows or one line per column"""
+    out, i = [], 0
+    for t in sheet["tables"]:
+        n_rows = len(t["columns"][0]["values"]) if t["columns"] else 0
+        h = 2 + (len(t["columns"]) if t["transposed"] else 2 + n_rows)
+        out.append((i, i + h))
+        i += h + sep
+    return out
 
 
 # --------------------------------------------------------------------------- run / replay
@@ -972,7 +1060,7 @@ def run(tier, seed, model_ok, translator, search=False):
                 "non-trivial = at least one table with a column; distinct by sheet map and settings")
     rng = make_rng(seed, "C09")
     thorough = tier == "thorough"
-    n_cases = (2000 if thorough else 120) if not search else 500
+    n_cases = (1200 if thorough else 120) if not search else 500
     tmp = tempfile.mkdtemp(prefix="c09-")
     ops, pend = [], []
     try:
@@ -991,7 +1079,11 @@ def run(tier, seed, model_ok, translator, search=False):
             sheets = gen_sheets(rng)
             st = rng.choice(["False", "True", "True", "custom:0", "custom:0", "custom:1", "custom:2", "custom:3"])
             case = {"seed": seed, "index": i, "sheets": sheets, "styles": st, "sep": rng.choice([1, 1, 2, 3]),
-                    "target": rng.choice(["path", "bytes"]), "pattern": rng.choice(PATTERNS)}
+                    "target": rng.choice(["path", "bytes"]), "pattern": rng.choice(PATTERNS),
+                    "na_rep": rng.choice(["-", "-", "-", "nan", "NaN", " - ", "NAN", "-"]),
+                    "origin_mode": rng.choice([None, None, "origin", "location_file"])}
+            out.count("na_rep:" + repr(case["na_rep"]))
+            out.count("read_excel origin:" + str(case["origin_mode"]))
             tabs = [t for s in sheets for t in s["tables"]]
             nontrivial = any(t["columns"] for t in tabs)
             if i < 2:
@@ -1033,6 +1125,8 @@ def run(tier, seed, model_ok, translator, search=False):
                     wf_specs.append((py_wf(t), t))
         lost = 0
         for what, spec in NEGATIVE:
+            if what.startswith("row-wise table with 18279") and not thorough:
+                continue                  # building that frame takes seconds: thorough tier only
             wf_specs.append((py_wf(spec), spec))
             if py_wf(spec):
                 out.mismatch("negative example accepted by the python predicate", what, True, False)
@@ -1166,7 +1260,9 @@ def ladder_cases(seed, thorough):
         {"name": "v", "unit": "m", "kind": "num", "values": ["1.0", "nan"]}]}
     cases = []
     for i, n in enumerate(ROW_LADDER if thorough else ROW_LADDER_QUICK):
-        transposed = (i % 3 == 1) and n <= 8193
+        # a transposed table occupies n + 2 sheet columns: inside the domain only up to MAX_COLUMNS (beyond it
+        # write_excel raises — negative stream); larger ladder steps are therefore row-wise
+        transposed = (i % 3 == 1) and n + 2 <= MAX_COLUMNS
         base = datetime.datetime(1999, 12, 31, 23, 0, 0)
         cols = [{"name": "id", "unit": "text", "kind": "text",
                  "values": [("r%d" % j) if j % 97 else ("a:b %d \U0001F600" % j) for j in range(n)]},
@@ -1181,6 +1277,20 @@ def ladder_cases(seed, thorough):
         cases.append({"seed": seed, "index": "ladder:rows:%d" % n, "styles": ["True", "False", "custom:0"][i % 3],
                       "sep": 1 + i % 2, "target": "bytes" if i % 2 else "path", "pattern": None,
                       "sheets": [{"name": "L", "tables": [big, small], "form": rng.choice(["list", "generator", "tuple"])}]})
+    # at the limits of the format: cell text of exactly 32767 characters (value, column name, unit, table name + its
+    # decoration), a transposed table filling all 18278 addressable columns
+    full = "y" * MAX_CELL_CHARS
+    for i, tr in enumerate((False, True)):
+        lim = {"name": "n" * (MAX_CELL_CHARS - 3), "destinations": ["all"], "transposed": tr, "columns": [
+            {"name": "k" * MAX_CELL_CHARS, "unit": "text", "kind": "text", "values": [full, "short", full[:-1]]},
+            {"name": "v", "unit": "u" * MAX_CELL_CHARS, "kind": "num", "values": ["1.0", "nan", "2.5"]}]}
+        cases.append({"seed": seed, "index": "ladder:cell-limit:%s" % tr, "styles": "True" if tr else "False", "sep": 1,
+                      "target": "bytes" if tr else "path", "pattern": None,
+                      "sheets": [{"name": "L", "tables": [lim, small], "form": "list"}]})
+    widest = {"name": "widest", "destinations": ["all"], "transposed": True, "columns": [
+        {"name": "a", "unit": "m", "kind": "num", "values": [float_tok(j * 0.25) for j in range(MAX_COLUMNS - 2)]}]}
+    cases.append({"seed": seed, "index": "ladder:column-limit", "styles": "True" if thorough else "False", "sep": 1,
+                  "target": "bytes", "pattern": None, "sheets": [{"name": "L", "tables": [widest, small], "form": "list"}]})
     for i, n in enumerate(COL_LADDER if thorough else COL_LADDER_QUICK):
         cols = [{"name": "c%d" % j, "unit": "m" if j % 2 else "text", "kind": "num" if j % 2 else "text",
                  "values": [float_tok(j + 0.25), "nan"] if j % 2 else ["t%d" % j, "u"]} for j in range(n)]
